@@ -132,7 +132,10 @@ class NetworkXGraphStorageDisjoint:
                     self.graphs[graph_id].clear()
                 # relabel incoming graph nodes to integers, then merge
                 temp_graph = nx.convert_node_labels_to_integers(graph, 1)
-                self.graphs[graph_id] = temp_graph
+                # as in add_graph: the passed in graph may actually be a DiGraph
+                self.graphs[graph_id] = nx.Graph()
+                self.graphs[graph_id].add_nodes_from(temp_graph.nodes(data=True))
+                self.graphs[graph_id].add_edges_from(temp_graph.edges(data=True))
                 self.graph_node_ids[graph_id] = len(self.graphs[graph_id].nodes()) + 1
             except Exception as e:
                 raise e
